@@ -96,9 +96,24 @@ func (c *tcond) eval(tags map[string]string) bool {
 
 // fcond is a filter over events.
 type fcond struct {
-	Kind string `json:"kind"` // true | contains | tsgt | tslt
+	Kind string `json:"kind"` // true | contains | tsgt | tslt | fldeq | fldne (field K compared with S)
 	S    string `json:"s,omitempty"`
 	N    int64  `json:"n,omitempty"`
+	K    string `json:"k,omitempty"`
+}
+
+// kvValue is the reference reading of a field list rendered as k=v,k=v (the generator's values need no quoting): the
+// value of the first pair named k, "" when there is none.
+func kvValue(kv, k string) string {
+	if kv == "" {
+		return ""
+	}
+	for _, p := range strings.Split(kv, ",") {
+		if i := strings.IndexByte(p, '='); i >= 0 && p[:i] == k {
+			return p[i+1:]
+		}
+	}
+	return ""
 }
 
 func (f fcond) lql() string {
@@ -109,12 +124,21 @@ func (f fcond) lql() string {
 		return fmt.Sprintf("ts > %d", f.N)
 	case "tslt":
 		return fmt.Sprintf("ts < %d", f.N)
+	case "fldeq":
+		return "fields:" + f.K + " = " + strconv.Quote(f.S)
+	case "fldne":
+		return "fields:" + f.K + " != " + strconv.Quote(f.S)
 	}
 	return ""
 }
 
-func (f fcond) eval(ts int64, msg string) bool {
+// eval is the reference meaning on the SOURCE event (its own fields; the tags the pipe appends are not part of it)
+func (f fcond) eval(ts int64, msg, fields string) bool {
 	switch f.Kind {
+	case "fldeq":
+		return kvValue(fields, f.K) == f.S
+	case "fldne":
+		return kvValue(fields, f.K) != f.S
 	case "contains":
 		return strings.Contains(msg, f.S)
 	case "tsgt":
@@ -133,6 +157,10 @@ func (f fcond) driver() string {
 		return fmt.Sprintf("tsgt:%d", f.N)
 	case "tslt":
 		return fmt.Sprintf("tslt:%d", f.N)
+	case "fldeq":
+		return "fldeq:" + vh.HxS(f.K) + ":" + vh.HxS(f.S)
+	case "fldne":
+		return "fldne:" + vh.HxS(f.K) + ":" + vh.HxS(f.S)
 	}
 	return "true"
 }
@@ -513,6 +541,9 @@ func runHistory(h *history, sec *vh.Section, section string) {
 			}
 			r.srv = srv
 			r.lines = append(r.lines, "shutdown", "halt", "restart")
+			if _, gerr := srv.Pipes.GetPipe(h.Name); (gerr == nil) != r.pipeLive {
+				fail("registry-changed-by-restart", "after a clean restart the pipe exists iff it existed (and was not deleted) before", fmt.Sprintf("exists=%v", gerr == nil), fmt.Sprintf("exists=%v", r.pipeLive), "", false)
+			}
 		}
 	}
 	r.quiesce()
@@ -558,7 +589,7 @@ func runHistory(h *history, sec *vh.Section, section string) {
 		for k := r.created[i]; k < hi; k++ {
 			e := ev{Ts: stored[k].Timestamp, Msg: stored[k].Message, Fields: fieldsWithProv(stored[k].Fields, tagLine(t))}
 			unfiltered[i] = append(unfiltered[i], e)
-			if h.F.eval(e.Ts, e.Msg) {
+			if h.F.eval(e.Ts, e.Msg, stored[k].Fields) {
 				expected[i] = append(expected[i], e)
 			}
 		}
@@ -763,6 +794,9 @@ var tagPool = []map[string]string{
 	{"grp": "g3"}, {"grp": "g1", "app": "b1", "host": "h1"},
 }
 
+// own fields of the written events; some carry a field named like a tag of the sources
+var fieldsPool = []string{"", "f=1", "f=2,h=zz", "grp=zz,f=1", "app=a1"}
+
 var sPool = []tcond{
 	{Kind: "all"},
 	{Kind: "eq", K: "grp", V: "g1"},
@@ -780,7 +814,12 @@ func genHistory(rng *vh.Rng, idx int, withFilter bool) *history {
 	}
 	h.S = sPool[rng.Intn(len(sPool))]
 	if withFilter {
-		switch rng.Intn(4) {
+		switch rng.Intn(6) {
+		case 4, 5:
+			// a condition on a field that is also a tag of (some of) the sources: the tags the pipe appends must not count
+			k := rng.PickS([]string{"grp", "app", "host"})
+			v := rng.PickS([]string{"g1", "a1", "h1", "zz"})
+			h.F = fcond{Kind: rng.PickS([]string{"fldeq", "fldne"}), K: k, S: v}
 		case 3:
 			// rejects everything, or everything from some point on: long runs of rejected events at the end of the sources
 			if rng.Bool() {
@@ -809,7 +848,6 @@ func genHistory(rng *vh.Rng, idx int, withFilter bool) *history {
 	for i := 0; i < ns; i++ {
 		h.Sources = append(h.Sources, tagPool[p[i]])
 	}
-	fieldsPool := []string{"", "f=1", "f=2,h=zz"}
 	sizes := []int{1, 2, 5, 17, 40}
 	if h.Chunk > 0 {
 		sizes = []int{1, 5, 30, 60, 120}
@@ -858,6 +896,11 @@ func genHistory(rng *vh.Rng, idx int, withFilter bool) *history {
 		}
 	}
 	if deleted {
+		h.Ops = append(h.Ops, wr())
+		if rng.Bool() {
+			// a clean restart must not bring the deleted pipe back
+			h.Ops = append(h.Ops, opT{Kind: "quiesce"}, opT{Kind: "restart"})
+		}
 		h.Ops = append(h.Ops, wr(), wr())
 	}
 	return h
@@ -1455,6 +1498,12 @@ func sectionOracle() {
 	for n := int64(0); n <= 60; n += 7 {
 		fs = append(fs, fcond{Kind: "tsgt", N: n}, fcond{Kind: "tslt", N: n})
 	}
+	// conditions on a field whose name is also a tag of the sources (the pipe appends the tags as fields AFTER filtering)
+	for _, k := range []string{"grp", "app", "f", "host"} {
+		for _, v := range []string{"g1", "a1", "1", ""} {
+			fs = append(fs, fcond{Kind: "fldeq", K: k, S: v}, fcond{Kind: "fldne", K: k, S: v})
+		}
+	}
 	for _, fc := range fs {
 		f, err := lql.BuildWhereExpFunc(fc.lql())
 		if err != nil {
@@ -1463,10 +1512,11 @@ func sectionOracle() {
 		}
 		for s := 0; s < 64; s++ {
 			msg := fmt.Sprintf("s1#%d %s", s, []string{"k7", "x", "zz", "x k7"}[s%4])
-			le := &model.LogEvent{Timestamp: int64(s), Msg: []byte(msg)}
+			kv := fieldsPool[s%len(fieldsPool)]
+			le := &model.LogEvent{Timestamp: int64(s), Msg: []byte(msg), Fields: fieldParse(kv)}
 			res.Eval(sec, fmt.Sprint(fc, s))
-			if f(le) != fc.eval(int64(s), msg) {
-				res.Mismatch(vh.Mismatch{Section: "oracle", Function: "reference evaluation of the filter", Input: fmt.Sprintf("%s on ts=%d msg=%q", fc.lql(), s, msg), Impl: fmt.Sprint(f(le)), Model: fmt.Sprint(fc.eval(int64(s), msg))})
+			if f(le) != fc.eval(int64(s), msg, kv) {
+				res.Mismatch(vh.Mismatch{Section: "oracle", Function: "reference evaluation of the filter", Input: fmt.Sprintf("%s on ts=%d msg=%q fields=%q", fc.lql(), s, msg, kv), Impl: fmt.Sprint(f(le)), Model: fmt.Sprint(fc.eval(int64(s), msg, kv))})
 			}
 		}
 	}
@@ -1482,6 +1532,7 @@ type corpusDoc struct {
 
 func sectionCorpus() (parked []parkedCase) {
 	sec := res.Section("corpus", "corpus", "witnesses of the open findings and minimised past failures (corpus/C10/*.json), replayed first: histories through the same runner as section history, parked cases in section parked")
+	var hs []*history
 	for _, f := range vh.CorpusFiles(args.Corpus) {
 		var d corpusDoc
 		if err := vh.ReadJSON(f, &d); err != nil {
@@ -1490,9 +1541,9 @@ func sectionCorpus() (parked []parkedCase) {
 		}
 		switch d.Section {
 		case "history", "stress", "corpus":
-			var h history
-			if json.Unmarshal(d.Input, &h) == nil && len(h.Ops) > 0 {
-				runHistory(&h, sec, "corpus")
+			h := new(history)
+			if json.Unmarshal(d.Input, h) == nil && len(h.Ops) > 0 {
+				hs = append(hs, h)
 			}
 		case "parked":
 			var c parkedCase
@@ -1501,6 +1552,7 @@ func sectionCorpus() (parked []parkedCase) {
 			}
 		}
 	}
+	runPar(hs, 12, func(h *history) { runHistory(h, sec, "corpus") })
 	res.Done(sec)
 	return
 }
